@@ -14,12 +14,15 @@ PROFILES = {
  "hist": '<<"join","sub","unsub","pub","pub","pub","pub","hist","hist","hist","adv","leave">>',
  "mixed": '<<"join","sub","unsub","pub","reg","unreg","call","cancel","yield","inverr","leave","adv">>',
 }
+mode = os.environ.get("MODE", "hist" if profile == "hist" else "")
 w = Work("try")
 os.environ["VERIF_KEEP"] = "1"
 b = build_harness(w)
-scns = gen_scenarios(w, "Gen", {"Deviations": tla_set(devs), "Depth": depth, "HistMode": "TRUE" if "hist" in profile else "FALSE"}, num, depth, seed, "gen", "g",
+scns = gen_scenarios(w, "Gen", {"Deviations": tla_set(devs), "Depth": depth, "Mode": '"%s"' % mode}, num, depth, seed, "gen", "g",
    defs={"KindBag": PROFILES.get(profile) or ("<<" + ",".join('"%s"' % k for k in profile.split("+")) + ">>")})
-for s in scns: s["epilogue"] = True
+for s in scns:
+    s["epilogue"] = True
+    s["poison"] = bool(os.environ.get("POISON"))
 tf, crashes = run_exec(w, b, scns, "ex")
 for c in crashes:
     print("CRASH", c["scn"]); print(c["stderr"][-1500:])
